@@ -130,6 +130,7 @@ static int transition(const uint16_t *hist, int d, int opi, char *ckey, int verb
     for (int i = 0; i < d; i++) { snprintf(after, sizeof after, "step %d (op %d)", i, hist[i]); apply(t, &m, &OPS[hist[i]], verbose, after); if (verbose) observe(t, &m, after); }
     vc_asan_check();   /* reports raised by the history prefix belong to the transitions that ended in those ops */
     snprintf(after, sizeof after, "op %d", opi);
+    for (int i = 0; i < U; i++) if (m.present[i]) { size_t sz = 0; void *d = t->get(t, KEYS[i], &sz, true); if (d) sm_hold(d, VAL[m.val[i]].b, VAL[m.val[i]].n, "qhashtbl_get(newmem) taken before the operation"); }
     apply(t, &m, &OPS[opi], 1, after);
     observe(t, &m, after);
     canon(t, ckey);
